@@ -113,13 +113,21 @@ def cat_factor(rng: random.Random, v: str, frame: dict, allow_C: bool = True) ->
     return {"text": text, "label": text, "kind": "cat", "var": v, "levels": frame_levels(frame, v)}
 
 
-def eval_num_label(label: str, frame: dict, ctx: dict | None = None) -> np.ndarray:
-    """Independent numpy evaluation of a numeric factor from its label."""
+def eval_num_label(label: str, frame: dict, ctx: dict | None = None, native: bool = False) -> np.ndarray:
+    """Independent numpy evaluation of a numeric factor from its label (native=True: in the columns' own dtypes, for
+    recognising results that are what fixed-width integer arithmetic would give)."""
     from .data import make_frame
 
     df = make_frame(frame)
     env = {k: (np.asarray(v, dtype=float) if isinstance(v, list) else v) for k, v in (ctx or {}).items()}
-    env.update({c: df[c].to_numpy(dtype=float) for c, spec in frame["cols"] if spec["kind"] == "num"})  # data wins over context
+    if native:
+        env.update({c: df[c].to_numpy() for c, spec in frame["cols"] if spec["kind"] == "num"})
+        env.update({"np": np, "log": np.log, "log10": np.log10, "exp": np.exp, "I": lambda x: x})
+        with np.errstate(all="ignore"):
+            return np.asarray(eval(label, {"__builtins__": {}}, env))  # noqa: S307
+    # data wins over context; a Python-expression factor is evaluated on the column as it is held (an expression over an
+    # integer column is integer arithmetic: that is Python's meaning of the expression), its value then taken as a real number
+    env.update({c: (df[c].to_numpy() if df[c].dtype.kind in "iu" and label != c else df[c].to_numpy(dtype=float)) for c, spec in frame["cols"] if spec["kind"] == "num"})
     env.update({"np": np, "log": np.log, "log10": np.log10, "exp": np.exp, "I": lambda x: x})
     with np.errstate(all="ignore"):
         val = eval(label, {"__builtins__": {}}, env)  # noqa: S307 - labels come from our own generator
